@@ -190,6 +190,20 @@ class Ctx:
         else:
             confirmed = 2
             bundle_files = [trace]
+        if racy and confirmed == 0 and cmd is not None:
+            # a race may need the load of the whole run: execute the complete driver command again (same seed), three times
+            for attempt in range(3):
+                t2 = os.path.join(self.sc, "%s.reconfirm%d.ndjson" % (name, attempt))
+                c2 = [x for x in cmd]
+                c2[c2.index("--out") + 1] = t2
+                p = subprocess.run(c2, stdout=subprocess.PIPE, stderr=subprocess.STDOUT, text=True, env=GOENV)
+                if p.returncode != 0:
+                    raise NoVerdict("re-execution of driver %s failed:\n%s" % (name, p.stdout[-3000:]))
+                r2 = validate_trace(self.sc, module, os.path.basename(t2), deviations=[k["deviation"] for k in kf], timeout=timeout)
+                if not r2["accepted"]:
+                    confirmed = 1
+                    bundle_files = [t2]
+                    break
         if racy and confirmed >= 1:
             confirmed = 2
         if confirmed < 2:
@@ -467,7 +481,7 @@ def c08(ctx):
 @check("C10")
 def c10(ctx):
     ctx.assumptions += ["Raft safety of dragonboat is assumed (Group.tla is the contract regatta relies on); the three engines run in one process on loopback TCP with in-memory file systems",
-                        "one replica is made to lag by parking its FSM.Update in the verif hook for 5-45 ms at a time; reads are issued against it meanwhile",
+                        "one replica (the shard's Raft leader in every other behaviour, a follower otherwise) is made to lag by parking its FSM.Update in the verif hook for 5-45 ms at a time; writes are acknowledged through the other two nodes, reads are issued against the lagging one meanwhile, also by the client whose write was just acknowledged; the other replicas apply slowly now and then so that apply batches of several entries form",
                         "call order is taken from one process-wide sequence counter read at invocation and at return"]
     q = ctx.quick
     ctx.design("Group", "MC_Group_quick.cfg" if q else "MC_Group_thorough.cfg")
@@ -480,7 +494,8 @@ def c05(ctx):
     ctx.assumptions += ["leader and follower are one-node clusters in this process; the replication services run on a real gRPC loopback listener; timers are shortened (poll 15 ms, lease 10 ms, reconcile 40 ms)",
                         "the follower is sampled as (recorded leader index, full content, recorded leader index); content is compared with the leader content at that index when the index did not move during the read",
                         "after a follower engine restart the table manager's reconcile pass is triggered through the verif export instead of waiting 30 s",
-                        "proposal timeouts with late commits (Replication.tla deviation DupApplyAfterProposeTimeout) are a design-level finding that was not reproduced on the real code and is not part of this verdict"]
+                        "behaviour classes: recovery from the snapshot of a fat table under back-to-back leader writes; follower state machine stalled (verif hook) for longer than the log RPC timeout, so that proposals time out although they are committed; a table deleted and created again on the leader, once slowly and once while the follower's metadata request is being answered (known finding RecreateNotNoticed); random histories with log and snapshot streams that break after 0-2 messages",
+                        "every history contains once-marker transactions (first application creates u<n>, any further one d<n>): a leader command that takes effect twice on the follower stays visible for ever"]
     q = ctx.quick
     ctx.design("Replication", "MC_Replication_quick.cfg" if q else "MC_Replication_thorough.cfg")
     n, ops = (10, 60) if q else (150, 120)
